@@ -513,7 +513,7 @@ func drive(args []string) int {
 	}
 
 	// ---- floors ----
-	var missed []string
+	missed := []string{}
 	for _, f := range mon.SortedKeys(p.Floors) {
 		if strings.HasPrefix(f, "#") {
 			if len(total.Extra[f[1:]]) < p.Floors[f] {
